@@ -10,6 +10,7 @@ inverts two movable cells that the first result placed in the same row segment."
 import json
 from tools import common
 from checks import legal_common as lc
+from checks import c11_order
 
 LEVEL = "proof"
 
@@ -64,6 +65,8 @@ def run(ctx):
         plan += [(1, n // 2, s + 1050), (1 | 4, n // 2, s + 2050)]
     run = lc.LegalRun(ctx, plan).execute()
     mism, ofail, nontriv, known = evaluate(ctx, run)
+    # tie of the CLOSED model (coq/CellOrder.v: computeCellOrder over Q + Legalizer::run with the computed order), see checks/c11_order.py
+    ores = c11_order.run_order(ctx, 3000 if ctx.quick else 100000, s + 56)
     for l, i, why in ofail[:3]:
         ctx.violation("Circuit::legalize violates C11: " + why,
                       {"case": l, "format": "LG nrows (minX maxX minY maxY orient)* ncells (x y w h orient pol fixed obs)* custom ow10 oy10 oh10 effort twice",
@@ -75,14 +78,19 @@ def run(ctx):
                            "first_difference": {"case": mism[0][0], "implementation": mism[0][1], "model": mism[0][2]}}, found_input=False)
         if not proof_ok:
             ctx.violation("proof obligations of Properties_C11.v do not check", {"broken": "Properties_C11.v", "detail": proof}, found_input=False)
+        c11_order.report(ctx, ores)
     cov = dict(proof)
-    cov.update({"trusted_base": common.TRUSTED_BASE + ["computeCellOrder's float key is not modelled (order fed from the implementation; its order-preservation is proved over exact rationals)"],
-                "evaluations": len(run.lines), "distinct_nontrivial": len(nontriv),
+    cov.update({"trusted_base": common.TRUSTED_BASE + ["computeCellOrder is modelled over exact rationals (coq/CellOrder.v); its binary32 evaluation is outside the proof: compared exactly with the model where every float operation is exact, with a correctly rounded emulation elsewhere (checks/c11_order.py)"],
+                "evaluations": len(run.lines) + ores["runs"], "distinct_nontrivial": len(nontriv) + len(ores["nontrivial_lines"]),
+                "closed_model_order_tie": c11_order.summary(ores),
                 "rule": "C01 generator restricted to row-high movable cells (polarities, obstructions, split rows, y gaps), utilisation 30-110% and a sparse "
                         "stream, scale up to 2^16, efforts 1-9, custom ordering parameters over the accepted box in half of the cases; each case legalized twice. "
-                        "non-trivial = the first legalization succeeded (so the second one runs on a legal placement); distinct = distinct case lines",
+                        "non-trivial = the first legalization succeeded (so the second one runs on a legal placement); distinct = distinct case lines. "
+                        "Closed-model stream (OR lines, harness/order.cpp): general / row-high / tiled / sparse circuits, scale 1..2^9 (half), 2^10..2^16 (some), "
+                        "copied cells for equal keys, ordering parameters as dyadic fractions (70 %) or tenths over the accepted box; non-trivial = binary32 key "
+                        "evaluation exact and at least two movable cells",
                 "distribution": lc.distribution(run), "known_F10_matches": known,
-                "samples": [run.lines[0], run.lines[len(run.lines) // 2]],
+                "samples": [run.lines[0], run.lines[len(run.lines) // 2]] + ores["lines"][-1:],
                 "model_vs_impl_differences": len(mism), "impl_outputs_violating_statement": len(ofail)})
     return ctx.finish(LEVEL, cov, ["whole-circuit idempotence is validated per case, its ingredients are proved (see Properties_C11.v)",
                                    "model tied to the code by exact comparison on the cases of this run"])
@@ -91,6 +99,8 @@ def run(ctx):
 def replay(ctx, path):
     r = json.load(open(path))["replay"]
     case = r.get("case") or r["first_difference"]["case"]
+    if case.startswith("OR "):
+        return c11_order.replay_case(case)
     class R(lc.LegalRun):
         def __init__(self, ctx):
             self.ctx = ctx
